@@ -53,6 +53,17 @@ def run(ctx):
     h3 = h3_jobs.h3_job(ctx, pairs=False)
     h3.pop("h3_assumptions")
     cov["http3_relay"] = {k: h3[k] for k in ("h3_vectors", "h3_relays", "h3_evaluations")}
+    # tunnels established through a SOCKS5 upstream: the connection to the destination is the one that
+    # carried the SOCKS5 dialogue (Socks5.tla TunnelIsDestination); both directions are compared octet for octet
+    import c15
+    before = len(ctx.violations)
+    sk = c15.socks_tunnel_job(ctx)
+    # the byte stream is this property's business; a malformed or unfaithful SOCKS5 message is C15's
+    mine = ("used", "early", "fwd-down", "fwd-up", "fwd-relay-error", "fwd-hang", "fwd-panic",
+            "tun-down", "tun-up", "tun-noend", "tun-hang", "tun-panic")
+    ctx.violations[before:] = [v for v in ctx.violations[before:] if v["sig"].split(":")[1] in mine]
+    cov["socks5_upstream_relays"] = {k: sk["counters"].get(k, 0) for k in ("forwarder_level_relays", "tunnel_level_requests")}
+    cov["evaluations"] += sk["evaluations"]
     cov["end_to_end_scenarios"] = e["evaluations"]
     cov["traces_validated_against_impl"] += e["evaluations"]
     cov["evaluations"] += e["evaluations"]
@@ -67,5 +78,6 @@ def run(ctx):
         "bounded model: scripts of <= 3 chunks, windows <= 2, T = 2..3 ticks, one injected fault",
         "HTTP/3: established tunnels relay patterned payloads (up to 300 kB each way, client half-close first) through the real QUIC path; schedules there are whatever loopback UDP produces",
         "end-to-end part: over HTTP/1.1 only scenarios in which the side finishing second has nothing left to send are run for the client-first order (TLS carries no client half-close)",
+        "SOCKS5 upstream: the tunnel-level slice of MCSocks5 (destination x bound-address type of the reply, up to 5000 octets down / 3000 up, the server's reply and the destination's first octets in one write) through the real Socks5Forwarder, over HTTP/1.1 and HTTP/2",
         "trusted: TLC, the scripted endpoints of the harness, the verif::pipe door",
     ])
